@@ -397,6 +397,16 @@ def report(ctx, soh, tables, c, r, reason, baseline=None, broken=None, do_shrink
 
 
 # ---------------------------------------------------------------------------------------------------
+def prove():
+    """Inst/C14Inst.v is shared with the other table properties (same per-run directory): when somebody else
+    recompiled it after our instance file was built, ours is stale although its source did not change"""
+    dep = S.all_vo_mtime()
+    c14 = os.path.join(C.dyn_dir(), "Inst", "C14Inst.vo")
+    if os.path.exists(c14):
+        dep = max(dep, os.path.getmtime(c14))
+    return C.prove_property("C15", [("Inst/C14Inst.v", None), ("Inst/C15Inst.v", None)], newer_than=dep, timeout=1800)
+
+
 def load_corpus():
     items = []
     for p in sorted(glob.glob(os.path.join(CORPUS, "*.json"))):
@@ -427,7 +437,13 @@ def run(ctx):
     tables = build["tables"]
     pres = None
     if build["ok"]:
-        pres = C.prove_property("C15", [("Inst/C14Inst.v", None), ("Inst/C15Inst.v", None)], newer_than=S.all_vo_mtime(), timeout=1800)
+        pres = prove()
+        if pres["failed"] and "inconsistent assumptions" in pres["failed"]["out"]:
+            # another check recompiled a shared per-run file (Inst/C14Inst.vo) in between: rebuild ours once
+            for rel in ("Inst/C15Inst.vo", "Properties/C15.vo"):
+                with contextlib.suppress(FileNotFoundError):
+                    os.remove(os.path.join(C.dyn_dir(), rel))
+            pres = prove()
         inst_ok = any(r["path"] == "Inst/C15Inst.v" and r["rc"] == 0 for r in pres["results"])
         ctx.add_obligations(230, 230 if inst_ok else 0, "reflection instance sohncke_reflect: chk_sohncke on each of the 230 regenerated tables (one vm_compute)")
         ctx.record_proof(pres)
